@@ -395,7 +395,7 @@ class ST:
         if name in METH:
             class M_:
                 def __vc_call__(s, I, a, k):
-                    return METH[name](I, t, *a, **k)
+                    return ct.call_modelled(METH[name], "." + name, name, I, t, a, k)
             return M_()
         raise Unsupported("symbolic-shape tensor .%s" % name)
 
@@ -1551,6 +1551,7 @@ METH["logical_and"] = METH["bitwise_and"] = lambda I, t, o: t.__vc_binop__(I, as
 METH["logical_or"] = METH["bitwise_or"] = lambda I, t, o: t.__vc_binop__(I, ast.BitOr(), o, False)
 METH["where"] = lambda I, t, c, o: f_where(I, c, t, o)  # t.where(c, o) = torch.where(c, t, o)
 METH["isfinite"] = lambda I, t: f_isfinite(I, t)
+METH["select"] = lambda I, t, dim, index: t.__vc_getitem__(I, tuple([slice(None)] * (dim % len(t.shape)) + [index]))
 METH["isneginf"] = FUNCS["torch.isneginf"] = lambda I, t: METH["eq"](I, t, -float("inf"))
 METH["isposinf"] = FUNCS["torch.isposinf"] = lambda I, t: METH["eq"](I, t, float("inf"))
 METH["subtract"], METH["multiply"], METH["divide"], METH["true_divide"] = METH["sub"], METH["mul"], METH["div"], METH["div"]
